@@ -41,15 +41,15 @@ func vInt(s string) *V {
 	}
 	return &V{T: "int", I: s}
 }
-func vBig(b *big.Int) *V   { return &V{T: "int", I: b.String()} }
-func vFlt(f float64) *V    { return &V{T: "flt", F: strconv.FormatUint(math.Float64bits(f), 16)} }
-func vStr(n int) *V        { return &V{T: "str", N: n} }
-func vBin(n int) *V        { return &V{T: "bin", N: n} }
-func vStrLit(s string) *V  { h := hex.EncodeToString([]byte(s)); return &V{T: "str", S: &h, N: len(s)} }
-func vBinLit(b []byte) *V  { h := hex.EncodeToString(b); return &V{T: "bin", S: &h, N: len(b)} }
-func vArr(e ...*V) *V      { return &V{T: "arr", E: e} }
-func vRepArr(n int) *V     { return &V{T: "arr", Rep: true, N: n} }
-func vRepMap(n int) *V     { return &V{T: "map", Rep: true, N: n} }
+func vBig(b *big.Int) *V  { return &V{T: "int", I: b.String()} }
+func vFlt(f float64) *V   { return &V{T: "flt", F: strconv.FormatUint(math.Float64bits(f), 16)} }
+func vStr(n int) *V       { return &V{T: "str", N: n} }
+func vBin(n int) *V       { return &V{T: "bin", N: n} }
+func vStrLit(s string) *V { h := hex.EncodeToString([]byte(s)); return &V{T: "str", S: &h, N: len(s)} }
+func vBinLit(b []byte) *V { h := hex.EncodeToString(b); return &V{T: "bin", S: &h, N: len(b)} }
+func vArr(e ...*V) *V     { return &V{T: "arr", E: e} }
+func vRepArr(n int) *V    { return &V{T: "arr", Rep: true, N: n} }
+func vRepMap(n int) *V    { return &V{T: "map", Rep: true, N: n} }
 func vMap(k []string, e []*V) *V {
 	if len(k) != len(e) {
 		panic("vMap")
@@ -425,7 +425,7 @@ func fltLeaves() []*V {
 		vFlt(0),
 		vFlt(0.5),
 		vFlt(math.Copysign(0, -1)),
-		vFlt(math.Ldexp(1, -24)),                   // smallest half precision subnormal
+		vFlt(math.Ldexp(1, -24)), // smallest half precision subnormal
 		vFlt(float64(math.SmallestNonzeroFloat32)), // 1e-45, single subnormal
 		vFlt(math.SmallestNonzeroFloat64),          // 5e-324
 		vFlt(math.Inf(1)),
